@@ -178,11 +178,15 @@ fn varlen_case<const M: usize>(ctx: &mut Ctx, data: &[u8], filler: u8) {
         Mock::Ran { ok, failures, .. } => {
             ctx.count("mock:sha256-varlen");
             let Some(d) = circuit.out.borrow_mut().take() else { return };
-            // the request is the payload: the model answers with the reference digest, whatever the filler
+            // the request is the whole buffer (payload where `get_lims` puts it, filler elsewhere) and
+            // the length: the model runs its mirror of the selection code of sha256_varlen.rs
+            let lims = midnight_circuits::vec::get_lims::<M, 64>(data.len());
+            let mut buffer = vec![filler; M];
+            buffer[lims].copy_from_slice(data);
             ctx.case(
                 &format!("sha256:varlen:M{M}:{}", if filler == 0 { "zero-filler" } else { "adversarial-filler" }),
                 true,
-                &format!("sha256 {}", hex(data)),
+                &format!("sha256varlen {M} {} {}", data.len(), hex(&buffer)),
                 &hex(&d),
             );
             ctx.count(&format!("sha256:varlen:len%64={}", match data.len() % 64 { 0 => "0", 1..=54 => "1-54", 55 => "55", 56 => "56", 57..=62 => "57-62", _ => "63" }));
